@@ -274,9 +274,46 @@ def advance_rule(cx):
           'first trial centre c0*r ahead is still short of the farthest section point', where=b.file, found=f'first jump {c0}, end test {c1}')
 
 
+def analysis_wiring_rules(cx):
+    # both halves of the camber line are extracted with the caller's tolerance: the spanning ray and its reversal, same section, same `tol`
+    b = cx.fn('airfoil::camber::extract_camber_line')
+    if b:
+        hs = [cx.call(s) for s in b.calls('airfoil::camber::extract_half_camber_line')]
+        fwd = [h for h in hs if match('(call * (param section) $ray (param tol))', h) is not None and match('(call *SpanningRay::reversed _)', h[3]) is None]
+        rev = [h for h in hs if match('(call * (param section) (call *SpanningRay::reversed $ray) (param tol))', h) is not None]
+        ok = len(hs) == 2 and len(fwd) == 1 and len(rev) == 1 and match('(call *SpanningRay::reversed $r)', rev[0][3], {'r': fwd[0][3]}) is not None
+        cx.ob('EXPR', 'extract_camber_line:both-halves', ok,
+              'the camber line is walked from ONE starting ray in both directions (the ray and its reversal), on the same section and with the same tolerance argument (a half extracted with the '
+              'default tolerance is refined to 1e-3 whatever the analysis tolerance is)', where=b.file, found='; '.join(show(h)[-80:] for h in hs))
+    # an open section is split at the edge that is NOT open
+    b = cx.fn('airfoil::AirfoilGeometry::try_analyze')
+    if b:
+        def edge(x):
+            return f'(unwrap (field 0 (unwrap (call Result::map_err (call *find_edge (field pointer (field 0 (param {x}))) _ _ _ _) _))))'
+        def at(x):
+            return f'(call *length_along (call *at_closest_to_point (param section) (field point {edge(x)})))'
+        def is_open(x):
+            return f'(is (field geometry {edge(x)}) Open)'
+        sites = b.calls('*Curve2::split_open_at_length')
+        seen = set()
+        for s in sites:
+            a1 = cx.arg(s, 1)
+            if match(at('trailing'), a1) is not None and cx.guarded(b, s.bb, is_open('leading'), True) is not None:
+                seen.add('split-at-trailing-when-leading-open')
+            if match(at('leading'), a1) is not None and cx.guarded(b, s.bb, is_open('trailing'), True) is not None and cx.guarded(b, s.bb, is_open('leading'), False) is not None:
+                seen.add('split-at-leading-when-trailing-open')
+        closed = b.calls('*Curve2::split_closed_at_lengths')
+        okc = len(closed) == 1 and match(at('leading'), cx.arg(closed[0], 1)) is not None and match(at('trailing'), cx.arg(closed[0], 2)) is not None and \
+            cx.guarded(b, closed[0].bb, is_open('leading'), False) is not None and cx.guarded(b, closed[0].bb, is_open('trailing'), False) is not None
+        cx.ob('GUARD', 'try_analyze:perimeter-split', len(sites) == 2 and len(seen) == 2 and okc,
+              'a section open at its leading edge is split at the TRAILING edge point and one open at its trailing edge at the LEADING edge point (the located, closed one); a closed section at both, leading first',
+              where=b.file, found=str(sorted(seen)) + f' closed={okc}')
+
+
 def run_extra(cx):
     caliper_rule(cx)
     advance_rule(cx)
+    analysis_wiring_rules(cx)
     from vpa.core import leaves
     # ---------------------------------------------------------------- tolerance provenance
     n = 0
